@@ -1,7 +1,8 @@
 /-
 C02 — emitted arguments denote the node's parameters exactly.
 -/
-import ScadVerif.Spec.OpenScadBind
+import ScadVerif.Lemmas.Decode
+import ScadVerif.Props.C01
 import ScadVerif.Gen.Enums
 namespace ScadVerif.C02
 open ScadVerif ScadVerif.Spec
@@ -66,5 +67,221 @@ theorem small_ints_exact (n : Nat) (h : n < 2 ^ 53) : exactInDouble n = true := 
     · have := (Nat.log2_lt hn).mpr (show n < 2 ^ 53 from h); omega
   simp [this]
 example : exactInDouble (2 ^ 53 + 1) = false := by decide +kernel
+
+/-! ## binding and decoding the emitted arguments -/
+section Decode
+open ScadVerif.ParserLemmas ScadVerif.DecodeLemmas
+variable {ν : Type} (showNum : ν → List Char) (readNum : List Char → Option ν) (zero : ν)
+
+/-- the unsigned integer parameters of a node -/
+def nats : ScadOp ν → List Nat
+  | .circle _ _ _ fn | .sphere _ _ _ fn | .cylinder _ _ _ _ _ _ fn => fn.toList
+  | .polygon _ paths cv => (paths.getD []).flatten ++ [cv]
+  | .text _ _ _ _ _ _ _ _ _ fn => fn.toList
+  | .import_ _ cv | .surface _ _ _ cv | .minkowski cv | .resize _ _ _ _ cv => [cv]
+  | .polyhedron _ faces cv => faces.flatten ++ [cv]
+  | .linearExtrude _ _ cv _ _ slices fn => cv :: (slices.toList ++ fn.toList)
+  | .rotateExtrude _ cv _ _ fn => cv :: fn.toList
+  | _ => []
+
+/-- The nodes the property speaks of: the alignment/direction keywords are ones `text()` accepts,
+a colour name is one OpenSCAD knows, a hex colour starts with `#`, exactly one alternative of
+`Color`/`Offset` is set, and fields the node does not use hold the value the macros store there
+(so that "recovers every parameter" can be stated as equality of nodes). -/
+def OpOK : ScadOp ν → Prop
+  | .text _ _ _ halign valign _ direction _ _ _ =>
+    halignKw.contains halign = true ∧ valignKw.contains valign = true ∧ directionKw.contains direction = true
+  | .color rgba col hex alpha =>
+    match rgba, col, hex with
+    | some _, none, none => alpha = none
+    | none, some c, none => knownColour c = true ∧ c.head? ≠ some '#'
+    | none, none, some h => alpha = none ∧ h.head? = some '#'
+    | _, _, _ => False
+  | .offset r d ch =>
+    match r, d with
+    | some _, none => ch = false
+    | none, some _ => True
+    | _, _ => False
+  | .rotate a sc v =>
+    match a with
+    | some _ => sc = true → v = ⟨zero, zero, zero⟩
+    | none => sc = false
+  | .resize _ auto isVec av _ => if isVec then auto = false else av = (false, false, false)
+  | _ => True
+
+
+
+set_option hygiene false in
+local macro "dec" : tactic => `(tactic|
+  simp_all [decodeOp, signature, bindArgs, accepted, toPArg, faFsFn, optNat, req, Env.get, optNum, optNat', nats,
+    vNat_back, vBool?, vStr?, toVal, vIndices_back, vPaths_back, OpOK])
+
+set_option maxHeartbeats 1000000 in
+theorem decode_header (hread : ∀ x, readNum (showNum x) = some x) (op : ScadOp ν)
+    (hok : OpOK zero op) (hn : ∀ n ∈ nats op, exactInDouble n = true) (h : Header)
+    (hh : op.header showNum = some h) :
+    decodeOp readNum zero h.name (h.args.map toPArg) = some op := by
+  have b1 := vNum_back showNum readNum hread
+  have b3 := vPt2_back showNum readNum hread
+  have b4 := vPt3_back showNum readNum hread
+  have b5 := vPt4_back showNum readNum hread
+  have b6 := vPt2s_back showNum readNum hread
+  have b7 := vPt3s_back showNum readNum hread
+  cases op <;> simp only [ScadOp.header] at hh
+  case union | difference | intersection | hull =>
+    injection hh with hh; subst hh
+    simp [decodeOp, signature, bindArgs, accepted]
+  case circle r fa fs fn =>
+    injection hh with hh; subst hh
+    cases fa <;> cases fs <;> cases fn <;>
+      simp_all [decodeOp, signature, bindArgs, accepted, toPArg, faFsFn, req, Env.get, optNum, optNat', nats,
+        vNat_back]
+  case sphere r fa fs fn =>
+    injection hh with hh; subst hh
+    cases fa <;> cases fs <;> cases fn <;> dec
+  case cylinder hgt r1 r2 c fa fs fn =>
+    injection hh with hh; subst hh
+    cases fa <;> cases fs <;> cases fn <;> dec
+  case rotateExtrude a cv fa fs fn =>
+    injection hh with hh; subst hh
+    cases fa <;> cases fs <;> cases fn <;> dec
+  case square sz c => injection hh with hh; subst hh; dec
+  case cube sz c => injection hh with hh; subst hh; dec
+  case projection c => injection hh with hh; subst hh; dec
+  case translate v => injection hh with hh; subst hh; dec
+  case scale v => injection hh with hh; subst hh; dec
+  case mirror v => injection hh with hh; subst hh; dec
+  case minkowski cv => injection hh with hh; subst hh; dec
+  case import_ f cv => injection hh with hh; subst hh; dec
+  case surface f c i cv => injection hh with hh; subst hh; dec
+  case polygon pts paths cv =>
+    injection hh with hh; subst hh
+    cases paths with
+    | none => dec
+    | some v =>
+      dec
+      have hp := vPaths_back v (fun p hp n hnp => hn n (Or.inl ⟨p, hp, hnp⟩))
+      simp only [vPaths, toVal] at hp ⊢
+      simp [hp]
+  case polyhedron pts faces cv =>
+    injection hh with hh; subst hh; dec
+    rw [vPaths_back faces (fun p hp n hnp => hn n (Or.inl ⟨p, hp, hnp⟩))]; rfl
+  case text t sz f ha va sp d l sc fn =>
+    injection hh with hh; subst hh
+    cases fn <;> dec
+  case linearExtrude hgt c cv tw sc sl fn =>
+    injection hh with hh; subst hh
+    cases sl <;> cases fn <;> dec
+  case offset r d ch =>
+    cases r with
+    | some r => injection hh with hh; subst hh; cases d <;> dec
+    | none =>
+      cases d with
+      | some d => injection hh with hh; subst hh; dec
+      | none => simp at hh
+  case rotate a sc v =>
+    cases a with
+    | none =>
+      injection hh with hh; subst hh; dec
+      simp [vPt3, vNum, toVal, toVals, vPt3?, vNum?, hread]
+    | some a =>
+      cases sc
+      · simp only [if_false, Bool.false_eq_true] at hh
+        injection hh with hh; subst hh; dec
+        simp [vPt3, vNum, toVal, toVals, vPt3?, vNum?, hread]
+      · simp only [if_true] at hh
+        injection hh with hh; subst hh; dec
+        simp [vNum, toVal, hread]
+  case resize ns au isv av cv =>
+    injection hh with hh; subst hh
+    cases isv
+    · dec
+    · dec
+      simp [toVals, toVal]
+  case color rgba col hex alpha =>
+    cases rgba with
+    | some c =>
+      injection hh with hh; subst hh
+      cases col <;> cases hex <;> dec
+      simp [vPt4, vNum, toVal, toVals, vPt4?, vNum?, hread]
+    | none =>
+      cases col with
+      | some c =>
+        injection hh with hh; subst hh
+        cases hex <;> cases alpha <;> dec
+        all_goals
+          split
+          · rename_i heq; simp at hok
+          · rfl
+      | none =>
+        cases hex with
+        | some x =>
+          injection hh with hh; subst hh; dec
+          cases x with
+          | nil => simp at hok
+          | cons ch t =>
+            simp only [List.head?_cons, Option.some.injEq] at hok
+            obtain ⟨_, rfl⟩ := hok
+            rfl
+        | none => simp at hh
+
+/-! ### whole trees -/
+/- the trees of the property: well-formed (C01) and every node `OpOK` with integers a double holds -/
+mutual
+def TreeGood : Scad ν → Prop
+  | .mk op cs => OpOK zero op ∧ (∀ n ∈ nats op, exactInDouble n = true) ∧ TreesGood cs
+def TreesGood : ScadList ν → Prop
+  | .nil => True
+  | .cons h t => TreeGood h ∧ TreesGood t
+end
+
+mutual
+theorem decodeStmt_toStmt (hread : ∀ x, readNum (showNum x) = some x) :
+    (t : Scad ν) → C01.WellFormed showNum t → TreeGood zero t →
+    decodeStmt readNum zero (toStmt showNum t) = some t
+  | .mk op cs, ⟨hh, _, hp, hcs⟩, ⟨hok, hn, hg⟩ => by
+    cases hop : op.header showNum with
+    | none => rw [hop] at hh; simp at hh
+    | some h =>
+      have hd := decode_header showNum readNum zero hread op hok hn h hop
+      cases hprim : op.isPrimitive with
+      | true =>
+        have := hp hprim; subst this
+        simp [toStmt, hop, hprim, decodeStmt, hd]
+      | false =>
+        have ih := decodeStmts_toStmts hread cs hcs hg
+        simp [toStmt, hop, hprim, decodeStmt, hd, ih]
+theorem decodeStmts_toStmts (hread : ∀ x, readNum (showNum x) = some x) :
+    (cs : ScadList ν) → C01.WellFormedList showNum cs → TreesGood zero cs →
+    decodeStmts readNum zero (toStmts showNum cs) = some cs
+  | .nil, _, _ => by simp [toStmts, decodeStmts]
+  | .cons t ts, ⟨h1, h2⟩, ⟨g1, g2⟩ => by
+    simp [toStmts, decodeStmts, decodeStmt_toStmt hread t h1 g1, decodeStmts_toStmts hread ts h2 g2]
+end
+
+/-- **C02, end to end.** Parsing the emitted text of any list of good trees and binding every
+statement's arguments by OpenSCAD's rules (positional order, parameter names, defaults, no unknown
+or duplicate name) recovers exactly the trees: every parameter of every node, optional settings
+present exactly when set, scalar-or-vector choices in the recorded form. -/
+theorem emitted_arguments_denote_parameters (hnum : ∀ x, IsNumeral (showNum x) = true)
+    (hread : ∀ x, readNum (showNum x) = some x) (ts : List (Scad ν))
+    (hwf : ∀ t ∈ ts, C01.WellFormed showNum t) (hg : ∀ t ∈ ts, TreeGood zero t) :
+    (parseProgram (emitAll showNum ts)).bind (fun stmts => stmts.mapM (decodeStmt readNum zero)) = some ts := by
+  rw [C01.emitAll_parses showNum hnum ts hwf]
+  simp only [Option.bind_some]
+  have : ∀ l : List (Scad ν), (∀ t ∈ l, C01.WellFormed showNum t) → (∀ t ∈ l, TreeGood zero t) →
+      (l.map (toStmt showNum)).mapM (decodeStmt readNum zero) = some l := by
+    intro l
+    induction l with
+    | nil => intros; rfl
+    | cons a t ih =>
+      intro h1 h2
+      simp only [List.map_cons, List.mapM_cons, Option.bind_eq_bind, Option.pure_def]
+      rw [decodeStmt_toStmt showNum readNum zero hread a (h1 a (by simp)) (h2 a (by simp)),
+        ih (fun x hx => h1 x (by simp [hx])) (fun x hx => h2 x (by simp [hx]))]
+      rfl
+  exact this ts hwf hg
+
+end Decode
 
 end ScadVerif.C02
